@@ -599,6 +599,7 @@ callback_readdata(void * cookie, int status)
 	struct http_cookie * H = cookie;
 	uint8_t * buf;
 	size_t buflen;
+	size_t datalen;
 	size_t waitlen;
 
 	/*
@@ -615,8 +616,17 @@ callback_readdata(void * cookie, int status)
 	if (buflen > H->readlen)
 		buflen = H->readlen;
 
+	/* The last 2 bytes of a chunk are its trailing EOL, not body data. */
+	datalen = buflen;
+	if (H->chunked) {
+		if (H->readlen <= 2)
+			datalen = 0;
+		else if (datalen > H->readlen - 2)
+			datalen = H->readlen - 2;
+	}
+
 	/* Add this to our internal buffer. */
-	if (addbody(H, buf, buflen))
+	if (addbody(H, buf, datalen))
 		return (die(H));
 
 	/* Consume the data. */
@@ -629,9 +639,6 @@ callback_readdata(void * cookie, int status)
 	if (H->readlen == 0) {
 		/* Was this just one chunk from a chunked encoding? */
 		if (H->chunked) {
-			/* Strip the trailing EOL. */
-			H->res.bodylen -= 2;
-
 			/* Get the next chunk. */
 			return (callback_chunkedheader(H, 0));
 		}
